@@ -875,11 +875,25 @@ func (v *Verifier) VerifyFunction(fn *ssa.Function, fc *FuncContract) (err error
 	// ghost globals
 	for _, gk := range sortedKeys(v.contracts.ghosts) {
 		g := v.contracts.ghosts[gk]
+		// ghosts of other packages exist too (their contracts may be applied at calls into them); their types are
+		// resolved in the declaring package, which must be part of the loaded program
+		gpkg := fnPkg(fn)
 		if g.Scope != "" && g.Scope != curScope {
-			continue
+			gpkg = nil
+			for _, p := range v.prog.AllPackages() {
+				if shortPkg(p.Pkg.Path()) == g.Scope {
+					gpkg = p.Pkg
+				}
+			}
+			if gpkg == nil {
+				continue
+			}
 		}
 		name := g.Name
-		ev := &Eval{v: v, st: st, pkg: fnPkg(fn)}
+		if _, dup := st.ghost[name]; dup {
+			continue
+		}
+		ev := &Eval{v: v, st: st, pkg: gpkg}
 		gv := namedValue("ghost!"+name, ev.resolveType(g.Typ))
 		if isMap(gv.T) {
 			// ghost maps exist and are pairwise distinct objects
